@@ -71,7 +71,9 @@ var soupAttrs = []string{`id="x"`, `class='a b'`, `xmlns="http://www.w3.org/1999
 	`data-x`, `x:y="1"`, `XMLNS:foo="u"`, `href="?a=1&amp;b=2"`, `disabled`, `xmlns:svg="http://www.w3.org/2000/svg"`,
 	`v-on:click:once="f"`, `a:b:c`, `:x="1"`, `xlink:title:x="t"`,
 	// names the tree builder spells in mixed case inside svg / math, and a non-ASCII upper-case letter
-	`viewBox="0 0 1 1"`, `preserveAspectRatio="none"`, `definitionURL="u"`, `État="x"`, `gradientUnits="u"`}
+	`viewBox="0 0 1 1"`, `preserveAspectRatio="none"`, `definitionURL="u"`, `État="x"`, `gradientUnits="u"`,
+	// names no XML name looks like - the tokenizer keeps them, so they are attributes of the tree
+	`@click="f"`, `(blur)="g"`, `[disabled]`, `#ref`, `*ngIf="y"`, `2col`, `-x=1`, `"`, `=x`, `xml:space="preserve"`, `xml:base="b"`}
 var soupText = []string{"text", " ", "a &amp; b", "&lt;x&gt;", "é中", "1 < 2", "\n  ", "]]>", "&nbsp;", "x",
 	"&amp;lt;b&amp;gt;", "&amp;amp;", "&amp;nbsp;x", "el.innerHTML=\"&nbsp;&lt;\""} // decoded once they still spell a reference
 
